@@ -148,7 +148,7 @@ Definition drop_unknown (m : msg) : msg := filter (fun f => known_num (fst f)) m
 Fixpoint insert_field (f : Z * wval) (l : msg) : msg :=
   match l with
   | [] => [f]
-  | g :: r => if fst g <=? fst f then g :: insert_field f r else f :: l
+  | g :: r => if fst g <? fst f then g :: insert_field f r else f :: l
   end.
 (* stable sort by field number *)
 Definition sort_fields (m : msg) : msg := fold_right insert_field [] m.
